@@ -658,6 +658,9 @@ def run_direct(stmts, acks, status=None, late_hs=False, settle=0.02, do_disconne
                     before = hub.nrel_seen
                     hub.push(bytes(line))
                     await_(lambda: hub.nrel_seen > before, 1.0)
+                    # the reader has TAKEN the line; give its callback time to handle it before the next statement is
+                    # written (peeking at the writer's private error slot is synchronisation only, never a verdict)
+                    await_(lambda: getattr(w, "_device_error", None) is not None, 0.5)
                     time.sleep(0.01)
                 if lose_idle_after == k:
                     with hub.lock:             # the link drops while nothing is in flight; the next write() must raise
